@@ -300,7 +300,7 @@ theorem atoms_separators_filter (ts : List (Token Nat)) (ty : Nat) :
 theorem structure_counterexample :
     let cfg : Cfg := { tbl := [], maxTrials := 200, frNum := 1, frDen := 1000000000 }
     let r : WLRecipe := { list := some { words := [[]], unCap := 1 }, length := 3,
-                          sep := .char [], capitalize := "none" }
+                          sepChar := [], capitalize := "none" }
     (match (WLRecipe.generate cfg id r).run [0, 0, 0] with
       | .done (.ok p) _ => some p.tokens | _ => none) = some [] := by
   decide
@@ -311,7 +311,7 @@ example :
     let cfg : Cfg := { tbl := [], maxTrials := 200, frNum := 1, frDen := 1000000000 }
     let title : Word → Word := fun w => match w with | c :: cs => (c - 32) :: cs | [] => []
     let r : WLRecipe := { list := some { words := [[97], [98, 99]], unCap := 0 }, length := 3,
-                          sep := .char [45], capitalize := "first" }
+                          sepChar := [45], capitalize := "first" }
     (match (WLRecipe.generate cfg title r).run [1, 0, 1] with
       | .done (.ok p) _ => p.tokens | _ => []) =
       [atomTok [66, 99], sepTok [45], atomTok [97], sepTok [45], atomTok [98, 99]] := by
